@@ -414,3 +414,42 @@ def unhashable_key_cases():
         out.append((f"tagged union, layout {ext}", U, vals))
         out.append((f"List[tagged union, layout {ext}]", t.List[U], [[v] for v in vals]))
     return out
+
+
+def equal_value_sequences(rng):
+    """
+    Round 11 (history-dependent breaks): ONE conditioned type object used repeatedly in one process with values that are EQUAL
+    (and hash alike) but of different kinds, or with the same value while the predicate's answer changes with outside state.
+    Returns a list of (name, type, steps); a step is ('value', v, expected) with expected in {'accept', 'reject', 'raises'}
+    decided here by applying the plain predicate to the value (the union hands each of these values through unchanged), or
+    ('do', callable) which changes the outside state. Every call builds fresh Condition objects, so fresh converters.
+    """
+    Cond = env.m_annotations.Condition
+    out = []
+
+    def steps_for(pred, values):
+        res = []
+        for v in values:
+            try:
+                e = 'accept' if pred(v) else 'reject'
+            except Exception:
+                e = 'raises'
+            res.append(('value', v, e))
+        return res
+
+    for name, inner, pred, values in (
+            ('is-int', t.Union[int, float], lambda v: isinstance(v, int), [2.0, 2, 3, 3.0, 0, 0.0, -0.0]),
+            ('bit-length', t.Union[int, float], lambda v: v.bit_length() <= 8, [300.0, 300, 200, 200.0, 7, 7.0]),
+            ('not-true', t.Union[bool, int], lambda v: v is not True, [True, 1, 0, False]),
+            ('real-attr', t.Union[int, float, complex], lambda v: v.imag == 0 and not isinstance(v, complex), [5, 5.0, 5 + 0j, 6 + 0j, 6])):
+        vals = list(values) * 2
+        rng.shuffle(vals)
+        out.append((name, t.Annotated[inner, Cond(pred, name)], steps_for(pred, vals)))
+    known = set()
+    pred = lambda s: s in known
+    seq = []
+    for word in ('b', 'c'):
+        seq += [('value', word, 'reject'), ('do', lambda w=word: known.add(w)), ('value', word, 'accept'), ('value', word, 'accept'),
+                ('do', lambda w=word: known.discard(w)), ('value', word, 'reject')]
+    out.append(('outside-state', t.Annotated[str, Cond(pred, 'known')], seq))
+    return out
